@@ -579,9 +579,6 @@ var c05Regression = []struct{ in, want string }{
 
 func init() {
 	register("C05", func(c *Ctx) error {
-		// h.NewRNG(seed) streams of neighbouring seeds are shifted copies of each other; derive a scrambled base
-		// state from the first output so that every seed gives unrelated cases (still a function of VERIF_SEED only)
-		c.Rng = &h.RNG{S: c.Rng.Next()*0xD6E8FEB86659FD93 + 0xC05}
 		if err := c05Known(c); err != nil {
 			return err
 		}
